@@ -7,10 +7,12 @@ import (
 
 // VerifH_C03_Handler: for every decodable query, every rule outcome and every upstream/deadline
 // behaviour the request handler leaves exactly one response with the mandated header and question.
-func VerifH_C03_Handler_S6() {
+func VerifH_C03_Handler_S24() {
 	verifrt.Unwind(60)
 	vRich = verifrt.Thorough()
-	sh := verifrt.Shard()
+	vPlainReply = true // the reply families are C12's subject
+	sh := verifrt.Shard() % 6
+	vFamForce = verifrt.Shard() / 6 // 0 v4, 1 v6, 2 v4-mapped, 3 unknown
 	up := &vUpstream{tag: "up", maxRecs: 1}
 	uw := &upstreamWrapper{tag: "up", u: up}
 	var rules []*rule
